@@ -421,11 +421,11 @@ PROPERTIES["C07"]["outside"] = ["the universal statement (every type-correct pac
 PROPERTIES["C07"]["assumptions"] = PROPERTIES["C07"]["assumptions"] + PIPE_ASSUME[len(COMMON_ASSUMPTIONS):]
 
 PROPERTIES["C02"]["runs"] += [
-    dict(pkg="accumulation", files=PIPE_FILES, entry="Harness_P01", name="_guards", quick=dict(params=dict(STMTS=2, COMPOUND=5)), thorough=dict(params=dict(STMTS=3, COMPOUND=5)), args=dict(sample_every=61, max_samples=20)),
+    dict(pkg="accumulation", files=PIPE_FILES, entry="Harness_P01", name="_guards", quick=dict(params=dict(STMTS=2, COMPOUND=5)), thorough=dict(params=dict(STMTS=3, COMPOUND=5, SIMPLE=5)), args=dict(sample_every=61, max_samples=20)),
 ]
 PROPERTIES["C02"]["explanation"] += (" Source level (P01.A2): " + PIPE_EXPL + "every program of the C01 grammar whose dereferences are all nil-checked (`if x != nil { _ = *x }`, early-return guards, repairs) must get no diagnostic.")
 PROPERTIES["C02"]["bounds"]["quick"] += "; source level: the 742 two-statement programs of the C01 grammar"
-PROPERTIES["C02"]["bounds"]["thorough"] += "; source level: all three-statement programs of the C01 grammar"
+PROPERTIES["C02"]["bounds"]["thorough"] += "; source level: the three-statement programs of the C01 grammar over 5 straight-line forms (the full set runs under C01)"
 
 PROPERTIES["C08"]["explanation"] += (" Source level (P08): " + PIPE_EXPL + "a callee returning (*int, error) through two return statements (nil/non-nil value x nil/sentinel error, behind an opaque flag or behind the callee's own "
     "`if e := other(); e != nil { return nil, e }`), optionally forwarded by `return callee()`, and a caller in eleven forms (proper != nil / == nil check, no check, blank error, check without return, error variable overwritten by an "
@@ -469,12 +469,12 @@ PROPERTIES["C08"]["explanation"] += (" P08 also covers named results with bare r
 PROPERTIES["C08"]["bounds"]["quick"] = PROPERTIES["C08"]["bounds"]["quick"].replace("all 440 callee x caller programs of the P08 family", "all 1716 callee x caller programs of the P08 family (error form) and all 672 of the (value, ok) form")
 PROPERTIES["C08"]["outside"] = [o.replace("ok-returning functions and named results at source level; ", "non-constant ok operands; the precision clause (A2) for bare returns of a named ok result; ") for o in PROPERTIES["C08"]["outside"] if o != "ok-returning functions"]
 
-_P01X = dict(pkg="accumulation", files=PIPE_FILES, entry="Harness_P01X", quick=dict(params=dict(STMTS=2, COMPOUND=5)), thorough=dict(params=dict(STMTS=3, COMPOUND=5)), args=dict(sample_every=61, max_samples=16))
+_P01X = dict(pkg="accumulation", files=PIPE_FILES, entry="Harness_P01X", quick=dict(params=dict(STMTS=2, COMPOUND=5)), thorough=dict(params=dict(STMTS=3, COMPOUND=4, SIMPLE=5)), args=dict(sample_every=61, max_samples=16))
 PROPERTIES["C01"]["runs"] += [_P01X]
 PROPERTIES["C01"]["explanation"] += (" P01X splits the P01 programs over two packages: the callee and the package-level pointer live in a dependency that is analysed first, its facts (inferred map, nolint) are handed to the importer, "
     "which sees the dependency through a fresh type-check of its source (fresh type objects, as with export data).")
 PROPERTIES["C01"]["bounds"]["quick"] += "; P01X: the 1043 two-statement programs split over two packages (callee directly or through an unexported helper)"
-PROPERTIES["C01"]["bounds"]["thorough"] += "; P01X: the three-statement programs split over two packages"
+PROPERTIES["C01"]["bounds"]["thorough"] += "; P01X: the three-statement programs over 5 straight-line forms split over two packages"
 PROPERTIES["C01"]["outside"] = [o.replace("; more than one package", "; more than two packages; facts are handed over by reference (the gob codec is decided by C06)") for o in PROPERTIES["C01"]["outside"]]
 PROPERTIES["C03"]["runs"] += [dict(_P01X, name="_modular")]
 PROPERTIES["C03"]["explanation"] += (" Source level (P01X): " + PIPE_EXPL + "every program of the C01 grammar is analysed twice - split over a dependency (callee, package-level pointer) and an importer with facts handed over, "
@@ -508,7 +508,7 @@ PROPERTIES["C01"]["runs"] += [
 PROPERTIES["C01"]["bounds"]["quick"] += "; a nil check of x inside an && / || expression used as a value, followed by the 28 one-statement programs (56)"
 PROPERTIES["C01"]["bounds"]["thorough"] += "; the boolean-value prefix followed by the 742 two-statement programs (1484)"
 
-_P13 = dict(pkg="accumulation", files=PIPE_FILES, entry="Harness_P13", quick=dict(params=dict(STMTS=2, COMPOUND=4)), thorough=dict(params=dict(STMTS=3, COMPOUND=4)), args=dict(sample_every=41, max_samples=16))
+_P13 = dict(pkg="accumulation", files=PIPE_FILES, entry="Harness_P13", quick=dict(params=dict(STMTS=2, COMPOUND=4)), thorough=dict(params=dict(STMTS=3, COMPOUND=4, SIMPLE=5)), args=dict(sample_every=41, max_samples=16))
 PROPERTIES["C13"]["runs"] += [_P13]
 PROPERTIES["C13"]["explanation"] += (" Source level (P13): " + PIPE_EXPL + "every program of the C01 grammar is analysed with grouping off and on (and with a nolint comment on one dereference line); with grouping on every location of the "
     "ungrouped report appears exactly once - as a diagnostic position or in one 'other place(s)' list - the stated count equals the list length, and nothing new appears (real messages, parsed by the harness).")
@@ -517,7 +517,7 @@ PROPERTIES["C13"]["bounds"]["thorough"] += "; source level: the three-statement 
 PROPERTIES["C11"]["runs"] += [dict(_P13, name="_nolint")]
 PROPERTIES["C11"]["explanation"] += (" Source level (P13): " + PIPE_EXPL + "a `//nolint:nilaway` comment (real comment map, real NoLint analyzer) on one dereference line of a program of the C01 grammar removes exactly the reports located on that line, with grouping off and on.")
 PROPERTIES["C11"]["bounds"]["quick"] += "; source level: the two-statement programs of the C01 grammar x each dereference line"
-PROPERTIES["C11"]["bounds"]["thorough"] += "; source level: the three-statement programs"
+PROPERTIES["C11"]["bounds"]["thorough"] += "; source level: the three-statement programs over 5 straight-line forms"
 _P10 = dict(pkg="accumulation", files=PIPE_FILES, entry="Harness_P10", quick=dict(params=dict(STMTS=2, COMPOUND=4)), thorough=dict(params=dict(STMTS=3, COMPOUND=4)), args=dict(sample_every=41, max_samples=16))
 PROPERTIES["C10"]["runs"] += [_P10]
 PROPERTIES["C10"]["explanation"] += (" Source level (P10): " + PIPE_EXPL + "the programs of the C01 grammar carry one doc annotation - nilable or nonnil on the callee's parameter, on its result (`result 0`), or nilable on the package-level pointer - "
@@ -533,7 +533,7 @@ PROPERTIES["C09"]["explanation"] += (" Source level (P09): " + PIPE_EXPL + "plus
 PROPERTIES["C09"]["bounds"]["quick"] += "; source level: all 512 programs of the P09 family (256 single-package, 256 split)"
 PROPERTIES["C09"]["outside"] = [o for o in PROPERTIES["C09"]["outside"]] + ["source level: more than two implementations or one interface, embedded structs, conversions by return / composite literal / append"]
 
-PROPERTIES["C14"]["runs"] += [dict(pkg="accumulation", files=PIPE_FILES, entry="Harness_P14", quick=dict(params=dict(STMTS=2, COMPOUND=5)), thorough=dict(params=dict(STMTS=3, COMPOUND=5)), args=dict(sample_every=61, max_samples=16))]
+PROPERTIES["C14"]["runs"] += [dict(pkg="accumulation", files=PIPE_FILES, entry="Harness_P14", quick=dict(params=dict(STMTS=2, COMPOUND=5)), thorough=dict(params=dict(STMTS=3, COMPOUND=4, SIMPLE=5)), args=dict(sample_every=61, max_samples=16))]
 PROPERTIES["C14"]["explanation"] += (" Source level (P14): " + PIPE_EXPL + "for every two-package program of the P01X family each diagnostic has a valid position that resolves to an existing line and column of p.go or q.go "
     "(findings in the dependency's file included), its message lists at least one flow step, every positioned step names an existing file:line:column, and the last positioned step is the reported position.")
 PROPERTIES["C14"]["bounds"]["quick"] += "; source level: the 1043 two-statement two-package programs"
